@@ -90,7 +90,7 @@ theorem initRaw_ok (cfg : Cfg) (c : Ctx) (h : LokiCfg cfg c) : DataOK cfg (winOf
 open Qryn.Prom in
 theorem initDown_ok (cfg : Cfg) (c : Ctx) (m15 : String) (hm : cfg.kind m15 = .data) : DataOK cfg (winOf c) (initDown c m15) := by
   have hc : conjuncts (whereOf (initDown c m15)) =
-      [gt (.raw "samples.timestamp_ns") (.int c.fromNs), le (.raw "samples.timestamp_ns") (.int c.toNs), getTypes c] :=
+      [ge (.raw "samples.timestamp_ns") (.int c.fromNs), le (.raw "samples.timestamp_ns") (.int c.toNs), getTypes c] :=
     conjuncts_and_flat _ (by
       intro e he
       simp only [List.mem_cons, List.not_mem_nil, or_false] at he
@@ -100,7 +100,7 @@ theorem initDown_ok (cfg : Cfg) (c : Ctx) (m15 : String) (hm : cfg.kind m15 = .d
       · rfl)
   have hp : conjuncts (preOf (initDown c m15)) = [] := rfl
   refine ⟨⟨m15, rfl, hm⟩, ?_, ?_, ?_⟩ <;> rw [hp, hc, List.nil_append]
-  · exact any_of_mem _ _ (gt (.raw "samples.timestamp_ns") (.int c.fromNs)) (by simp) (by simp [isLowerTs, gt, isTsCol, winOf]; omega)
+  · exact any_of_mem _ _ (ge (.raw "samples.timestamp_ns") (.int c.fromNs)) (by simp) (by simp [isLowerTs, ge, isTsCol, winOf])
   · exact any_of_mem _ _ (le (.raw "samples.timestamp_ns") (.int c.toNs)) (by simp) (by simp [isUpperTs, le, isTsCol, winOf])
   · exact any_of_mem _ _ (getTypes c) (by simp) (getTypes_isTypeFilter c)
 
